@@ -121,6 +121,20 @@ func init() {
 		}
 		return showArch(*x)
 	}
+	ops["alist"] = func(a []string) string {
+		xs, err := dependency.ParseArchitectures(arg(a, 0))
+		if err != nil {
+			if xs != nil {
+				return "err-with-value"
+			}
+			return "err"
+		}
+		items := []string{}
+		for _, x := range xs {
+			items = append(items, "( "+showArch(x)+" )")
+		}
+		return "ok " + showList(items)
+	}
 	ops["astring"] = func(a []string) string { return hx(mkArch(a, 0).String()) }
 	ops["art"] = func(a []string) string {
 		x, err := dependency.ParseArch(arg(a, 0))
